@@ -380,6 +380,15 @@ func collectArgs(
 			return argTs, err
 		}
 
+		// `a +` at the end of a line: the operand is on the next line
+		if len(argTs) == 0 &&
+			!m.isParentheses &&
+			m.parser.LastCallT.IsOperatorPower() &&
+			t.IsTargetIdentifier("\n") {
+
+			continue
+		}
+
 		if m.isNotArgT(methodT, argTs, t) {
 			break
 		}
